@@ -1120,31 +1120,29 @@ def rule_compound_merge(ctx: Ctx, rule: str = "compound-merge") -> None:
             elif not uni(iv, "inputvars") or not uni(ov, "outputvars"):
                 okc, why = False, "interfaces are %s / %s" % (show(iv, 3), show(ov, 3))
     (ctx.ok(rule, fi.key, construct) if okc else ctx.violation(rule, fi.key, construct, why, where=fi.where))
-    # from_strings flags
-    fi = prog.func("PolyhedralIoContractCompound.from_strings")
-    construct = "compound from_strings: assumptions built with the disjointness check, guarantees without"
-    flags = {}
-    for node in ast.walk(fi.node):
-        if isinstance(node, ast.keyword) and node.arg in ("assumptions", "guarantees") and isinstance(node.value, ast.Call):
-            c = node.value
-            vals = [norm(a) for a in c.args[1:]] + [norm(k.value) for k in c.keywords if k.arg == "force_empty_intersection"]
-            flags[node.arg] = vals
-    if flags.get("assumptions") == ["True"] and flags.get("guarantees") == ["False"]:
-        ctx.ok(rule, fi.key, construct)
-    else:
-        ctx.violation(rule, fi.key, construct, "flags are %s" % flags, where=fi.where)
-    # compound constructor: copies with the same flags; guards raise ValueError
+    # (the flags from_strings passes are decided on its interpreted run by rule compound-from-strings)
+    # compound constructor: copies with the same flags
     fi = prog.func("IoContractCompound.__init__")
     construct = "compound constructor: stores assumptions.copy(True) / guarantees.copy(False)"
-    st = {}
-    for node in ast.walk(fi.node):
-        tg = node.targets[0] if isinstance(node, ast.Assign) else node.target if isinstance(node, ast.AnnAssign) else None
-        if tg is not None and isinstance(tg, ast.Attribute) and tg.attr in ("a", "g") and node.value is not None:
-            st[tg.attr] = norm(node.value)
-    if st.get("a") == "assumptions.copy(True)" and st.get("g") == "guarantees.copy(False)":
-        ctx.ok(rule, fi.key, construct)
-    else:
-        ctx.violation(rule, fi.key, construct, "stores %s" % st, where=fi.where)
+    me = fi.params[0]
+    n = 0
+    for p in Sim(prog, fi).paths():
+        if p.terminal != "return":
+            continue
+        n += 1
+        st = {}
+        for e in p.events:
+            if e["kind"] == "store" and isinstance(e["target"], tuple) and e["target"][0] == "attr" and e["target"][1] == ("param", me) and e["target"][2] in ("a", "g"):
+                st[e["target"][2]] = e["value"]
+
+        def is_copy(v, par, flag):
+            return isinstance(v, tuple) and v[0] == "mcall" and v[1] == "copy" and v[2] == ("param", par) and list(v[3]) + [y for _k, y in v[4]] == [const(flag)]
+
+        if is_copy(st.get("a"), "assumptions", True) and is_copy(st.get("g"), "guarantees", False):
+            ctx.ok(rule, fi.key, construct + " @ " + p.label()[:40])
+        else:
+            ctx.violation(rule, fi.key, construct, "stores %s" % {k: show(v, 3) for k, v in st.items()}, where=fi.where)
+    ctx.floor("compound constructor returning paths", n, 1)
 
 
 def rule_membership_tests(ctx: Ctx, rule: str = "membership-tests") -> None:
@@ -1322,3 +1320,27 @@ def rule_compound_from_strings(ctx: Ctx, rule: str = "compound-from-strings") ->
         ctx.violation(rule, fi.key, construct, "; ".join(problems), where=fi.where)
     else:
         ctx.ok(rule, fi.key, construct)
+
+
+def rule_no_stale_caches(ctx: Ctx, rule: str = "derived-cache") -> None:
+    """C03/C13/C19: the constraint lists, terms and contracts are mutable objects with public fields (`.terms` is
+    assigned by the library itself after construction); a value derived from those fields and cached on the instance
+    (`functools.cached_property`, `lru_cache` / `cache` on a method) goes stale when the fields change, and whatever is
+    computed from it afterwards - the matrix columns of a refinement test - silently ignores the change."""
+    prog = ctx.prog
+    data_classes = [c for c in prog.classes if c in ("Var",) or prog.is_subclass(c, "TermList") or prog.is_subclass(c, "IoContract") or c in ("PolyhedralTerm", "NestedTermList", "IoContractCompound") or prog.is_subclass(c, "NestedTermList") or prog.is_subclass(c, "IoContractCompound")]
+    n = 0
+    for cname in sorted(data_classes):
+        ci = prog.classes[cname]
+        for mname, fi in sorted(ci.methods.items()):
+            if isinstance(fi.node, ast.Lambda):
+                continue
+            n += 1
+            decos = [norm(d).split("(")[0].split(".")[-1] for d in fi.node.decorator_list]
+            construct = "%s is recomputed from the object's current fields" % fi.key
+            caching = [d for d in decos if d in ("cached_property", "lru_cache", "cache")]
+            if caching and cname != "Var":
+                ctx.violation(rule, fi.key, construct, "@%s keeps the first value for the life of the object, whose fields are assigned after construction: the value goes stale" % caching[0], where=fi.where)
+            else:
+                ctx.ok(rule, fi.key, construct, nontrivial=False)
+    ctx.floor("methods of the data classes read for caching decorators", n, 60)
